@@ -3,6 +3,7 @@
    out:  <ok|err|panic|nofuel> n=.. all=.. rest=.. vok=.. rec=.. T=<type,len,line,col,slo,off;...> E=<-|msg18hex@outer@begin@end@corrupted> F=<tokerr|tokens|panic> *)
 open Conv
 open LexModel
+open LexParse1Model
 
 let si = string_of_int
 let pos_s (p : pos) =
@@ -21,6 +22,31 @@ let msg = function
   | E_namespace -> "namespace identifier should start from lower case letter"
   | E_illegalTL1 -> "illegal token for TL1: "
   | E_illegalTL2 | E_illegalTL2_arith | E_illegalTL2_boxed | E_illegalTL2_sections -> "illegal token for TL2: "
+  | E1_lcname -> "low-case name (with optional namespace) expected"
+  | E1_ucname -> "upper-case name (with optional namespace) expected"
+  | E1_varname -> "name without namespace expected"
+  | E1_tag_conv -> "error converting constructor tag to uint32: "
+  | E1_targ_colon -> "':' after template argument name expected"
+  | E1_targ_type -> "template argument type can be either 'Type' or '#'"
+  | E1_targ_close -> "'}' after template argument type expected"
+  | E1_rparen -> "')' expected"
+  | E1_const_overflow -> "constant overflows uint32: "
+  | E1_arith_expected -> "arithmetic expression expected after '+'"
+  | E1_arith_overflow -> "arithmetic expression overflows uint32"
+  | E1_lsq_after_star -> "'[' is expected after '*'"
+  | E1_bitnum -> "expecting decimal bitmask bit number"
+  | E1_bitmask_conv -> "error converting bitmask to uint32: "
+  | E1_q_after_mask -> "'?' expected after field bitmask "
+  | E1_field_type -> "field type is expected here (missed '()' around complex type?)"
+  | E1_return_type -> "return type is expected here"
+  | E1_q_in_function -> "'?' (legacy builtin type body) is not allowed in functions"
+  | E1_eq_after_q -> "'=' expected after '?' (legacy builtin type body)"
+  | E1_semicolon -> "';' or type argument expected"
+  | E1_round_not_allowed -> "for historic reasons, round brackets are not allowed here"
+  | E1_rparen_or_type -> "')' or type is expected here"
+  | E1_comma_gt_type -> "',', '>' or type expected here"
+  | E1_gt_or_type -> "'>' or type expected here"
+  | E1_name -> "name (with optional namespace) expected"
 
 (* the long messages of the TL2 classes differ after the quoted token; the class is visible in the suffix *)
 let cls = function
@@ -73,7 +99,15 @@ let run = function
        ^ " n=" ^ si (List.length r.r_toks) ^ " all=" ^ si (List.length r.r_all) ^ " rest=" ^ si (List.length r.r_rest)
        ^ " vok=" ^ (if !vok then "1" else "0") ^ " rec=" ^ (if rec_ok then "1" else "0")
        ^ " T=" ^ (if Buffer.length buf = 0 then "-" else Buffer.contents buf)
-       ^ " E=" ^ e ^ " F=" ^ f)
+       ^ " E=" ^ e ^ " F=" ^ f ^ " P1=" ^
+       (if lg = "2" then "-" else
+        match parseTLFile o s with
+        | PR_ok -> "ok"
+        | PR_err (true, _) -> "tokerr"
+        | PR_err (false, e) ->
+          "err:" ^ hex_of_string (prefix18 (msg e.e_kind)) ^ "@" ^ pos_s e.e_outer ^ "@" ^ pos_s (e_begin e) ^ "@" ^ pos_s (e_end e)
+        | PR_panic -> "panic"
+        | PR_nofuel -> "nofuel"))
   | l -> "driver-error unknown op " ^ String.concat " " l
 
 let () = each_line run
